@@ -111,7 +111,7 @@ def run(eng, tier):
             for f, _, _ in p.facts:
                 if f[0] == 'val' and f[2] is True and f[1][0] == 'is_subset':
                     cur, new = f[1][1], f[1][2]
-                    okc = cur[0] == 'collect' and cur[1][0] == 'call' and cur[1][2][0] == ('iter', F(CFG, 'approvers'))
+                    okc = cur == ('collect', ('iter', F(CFG, 'approvers'))) or (cur[0] == 'collect' and cur[1][0] == 'call' and cur[1][2][0] == ('iter', F(CFG, 'approvers')))
                     okn = new == ('collect', ('iter', SOMEV(M(V_, 'approvers'))))
                     if okc and okn: ok = True
                 # equivalent form: every current approver is contained in the new list
